@@ -363,3 +363,720 @@ def quote_check(tier, seed):
 
 
 CHECKS["quote"] = quote_check
+
+
+# ---------------------------------------------------------------------------
+# C08: scripts written from a grammar of SMT-LIB (not by pySMT's printer), read by pySMT's
+# parser and by the independent reader; every asserted term / definition must denote the same
+# ---------------------------------------------------------------------------
+class ScriptGen:
+    """typed generator of SMT-LIB text with the syntactic variants of each construct"""
+    SORTS = ["Bool", "Int", "Real", "(_ BitVec 3)", "(_ BitVec 8)", "(Array Int Int)", "S", "String"]
+
+    def __init__(self, rng, logic, suffix=""):
+        self.r = rng
+        self.logic = logic
+        self.suffix = suffix
+        self.consts = {}          # name -> sort text (declared constants)
+        self.funs = {}            # name -> ([param sorts], ret)   declared
+        self.defs = {}            # name -> ([(pname, sort)], ret)  defined
+        self.lines = []
+        self.counter = 0
+        self.features = set()
+
+    def spell(self, name):
+        """symbols may be written quoted even when they need not be"""
+        simple = all(c in R.SIMPLE_CHARS for c in name) and not name[0].isdigit()
+        if not simple or self.r.random() < 0.1:
+            self.features.add("quoted-symbol")
+            return "|%s|" % name
+        return name
+
+    def fresh(self, base):
+        self.counter += 1
+        return "%s%d%s" % (base, self.counter, self.suffix)
+
+    def sorts_for(self):
+        lg = self.logic
+        out = ["Bool"]
+        if lg in ("ALL", "QF_LIA", "QF_UFLIA", "LIA", "QF_AUFLIA", "QF_LIRA"):
+            out.append("Int")
+        if lg in ("ALL", "QF_LRA", "LRA", "QF_LIRA", "QF_UFLRA"):
+            out.append("Real")
+        if lg in ("ALL", "QF_BV", "QF_ABV", "QF_UFBV"):
+            out += ["(_ BitVec 3)", "(_ BitVec 8)"]
+        if lg in ("ALL", "QF_AUFLIA"):
+            out.append("(Array Int Int)")
+        if lg in ("ALL", "QF_UFLIA", "QF_UFLRA", "QF_UFBV", "QF_AUFLIA"):
+            out.append("S")
+        if lg in ("ALL", "QF_SLIA"):
+            out += ["String"] + ([] if "Int" in out else ["Int"])
+        return out
+
+    def header(self):
+        r = self.r
+        if self.logic is not None:
+            self.lines.append("(set-logic %s)" % self.logic)
+        ss = self.sorts_for()
+        if "S" in ss:
+            self.lines.append("(declare-sort S 0)")
+        names = ["x", "y", "z", "p", "q", "u", "v", "w", "a b", "k!", "i", "j", "s", "t"]
+        r.shuffle(names)
+        names = [n + self.suffix for n in names]
+        for nm in names[:r.randint(4, 9)]:
+            so = r.choice(ss)
+            self.consts[nm] = so
+            if r.random() < 0.5:
+                self.lines.append("(declare-fun %s () %s)" % (self.spell(nm), so))
+            else:
+                self.features.add("declare-const")
+                self.lines.append("(declare-const %s %s)" % (self.spell(nm), so))
+        for so in ss:
+            if True:
+                nm = self.fresh("c")
+                self.consts[nm] = so
+                self.lines.append("(declare-fun %s () %s)" % (nm, so))
+        if any("UF" in (self.logic or "") or self.logic == "ALL" for _ in [0]):
+            for _ in range(r.randint(0, 2)):
+                nm = self.fresh("f")
+                ps = [r.choice([s for s in ss if not s.startswith("(Array")]) for _ in range(r.randint(1, 2))]
+                rt = r.choice([s for s in ss if not s.startswith("(Array")])
+                self.funs[nm] = (ps, rt)
+                self.lines.append("(declare-fun %s (%s) %s)" % (nm, " ".join(ps), rt))
+        for _ in range(r.randint(0, 2)):
+            nm = self.fresh("d")
+            nparams = r.randint(0, 2)
+            # parameter names may shadow declared constants
+            params = []
+            for i in range(nparams):
+                pn = r.choice(self.shadowable(dict(self.consts))) if r.random() < 0.4 else self.fresh("par")
+                if pn in [p for p, _ in params]:
+                    continue
+                params.append((pn, r.choice([s for s in ss if not s.startswith("(Array")])))
+            rt = r.choice([s for s in ss if not s.startswith("(Array")])
+            scope = dict(self.consts)
+            for pn, ps_ in params:
+                scope[pn] = ps_
+            body = self.term(rt, 2, scope)
+            self.defs[nm] = (params, rt)
+            self.features.add("define-fun/%d" % len(params))
+            self.lines.append("(define-fun %s (%s) %s %s)" % (nm, " ".join("(%s %s)" % (self.spell(p), s) for p, s in params), rt, body))
+
+    # -- terms ------------------------------------------------------------------
+    def leaf(self, so, scope):
+        r = self.r
+        cands = [n for n, s in scope.items() if s == so]
+        if cands and r.random() < 0.6:
+            return self.spell(r.choice(cands))
+        return self.literal(so, scope)
+
+    def literal(self, so, scope):
+        r = self.r
+        if so == "Bool":
+            return r.choice(["true", "false"])
+        if so == "Int":
+            v = r.choice([0, 1, 2, 3, 7, 10, 255])
+            if r.random() < 0.3:
+                self.features.add("negative-numeral")
+                return "(- %d)" % v
+            return str(v)
+        if so == "Real":
+            k = r.random()
+            if k < 0.3:
+                self.features.add("decimal")
+                return r.choice(["0.0", "1.5", "2.25", "10.0", "0.125"])
+            if k < 0.5:
+                self.features.add("rational")
+                return "(/ %d %d)" % (r.randint(0, 5), r.randint(1, 4))
+            if k < 0.65:
+                self.features.add("rational")
+                return "(/ %d.0 %d.0)" % (r.randint(0, 5), r.randint(1, 4))
+            if k < 0.8:
+                return "(- %s)" % r.choice(["1.5", "2.0"])
+            if self.logic in ("QF_LRA", "LRA", "QF_UFLRA"):
+                self.features.add("numeral-as-real")
+                return str(r.randint(0, 9))          # a numeral denotes a Real in a logic without Ints
+            return r.choice(["3.0", "7.5"])
+        if so.startswith("(_ BitVec"):
+            w = int(so.split()[2].rstrip(")"))
+            v = r.randrange(1 << w)
+            k = r.random()
+            if k < 0.4:
+                return "#b" + format(v, "0%db" % w)
+            if k < 0.6 and w % 4 == 0:
+                self.features.add("hex-literal")
+                return "#x" + format(v, "0%dx" % (w // 4)) if r.random() < 0.5 else "#x" + format(v, "0%dX" % (w // 4))
+            self.features.add("(_ bvN w)")
+            return "(_ bv%d %d)" % (v, w)
+        if so == "String":
+            self.features.add("string-literal")
+            return r.choice(['""', '"a"', '"ab"', '"a""b"', '"x y"', '"(;|"'])
+        if so == "(Array Int Int)":
+            self.features.add("as-const")
+            return "((as const (Array Int Int)) %s)" % self.literal("Int", scope)
+        cands = [n for n, s in scope.items() if s == so]
+        return self.spell(self.r.choice(cands))
+
+    def shadowable(self, scope):
+        """names a binder may re-bind: not the per-sort constants c<N> (kept visible so that every sort has a leaf)"""
+        sfx = len(self.suffix)
+        return [n for n in scope if not (n[0] == "c" and (n[1:-sfx] if sfx else n[1:]).isdigit())] + [n for n in self.defs if n not in scope]
+
+    def term(self, so, depth, scope):
+        r = self.r
+        if depth <= 0 or r.random() < 0.15:
+            return self.leaf(so, scope)
+        t = lambda s2, sc=scope: self.term(s2, depth - 1, sc)
+        k = r.random()
+        avail = self.sorts_for()
+        # binders are available at every sort
+        if k < 0.12:
+            n = r.randint(1, 3)
+            names, binds = [], []
+            for _ in range(n):
+                nm = r.choice(self.shadowable(scope)) if r.random() < 0.5 else self.fresh("l")
+                if nm in names:
+                    continue
+                bs = r.choice([s for s in avail if s != "(Array Int Int)"])
+                names.append(nm)
+                binds.append((nm, bs, self.term(bs, depth - 1, scope)))       # bound terms: OUTER scope
+            inner = dict(scope)
+            for nm, bs, _ in binds:
+                inner[nm] = bs
+            self.features.add("let/%d%s" % (len(binds), "/shadowing" if any(nm in scope for nm in names) else ""))
+            return "(let (%s) %s)" % (" ".join("(%s %s)" % (self.spell(nm), bt) for nm, _, bt in binds), self.term(so, depth - 1, inner))
+        if k < 0.16:
+            self.features.add("annotation")
+            return "(! %s :named %s)" % (t(so), self.fresh("n"))
+        if k < 0.22:
+            self.features.add("ite")
+            return "(ite %s %s %s)" % (t("Bool"), t(so), t(so))
+        fs = [(n, f) for n, f in self.funs.items() if f[1] == so]
+        if fs and k < 0.30:
+            n, f = r.choice(fs)
+            self.features.add("uf-application")
+            return "(%s %s)" % (n, " ".join(t(p) for p in f[0]))
+        ds = [(n, d) for n, d in self.defs.items() if d[1] == so and n not in scope]
+        if ds and k < 0.40:
+            n, d = r.choice(ds)
+            self.features.add("defined-application")
+            if not d[0]:
+                return n
+            return "(%s %s)" % (n, " ".join(t(ps) for _, ps in d[0]))
+        if so == "Bool":
+            j = r.randrange(14)
+            if j == 0:
+                return "(not %s)" % t("Bool")
+            if j == 1:
+                return "(%s %s)" % (r.choice(["and", "or"]), " ".join(t("Bool") for _ in range(r.randint(2, 3))))
+            if j == 2:
+                self.features.add("xor")
+                return "(xor %s %s)" % (t("Bool"), t("Bool"))
+            if j == 3:
+                n = r.randint(2, 3)
+                if n == 3:
+                    self.features.add("=>-chain")
+                return "(=> %s)" % " ".join(t("Bool") for _ in range(n))
+            if j == 4:
+                s2 = r.choice(avail)
+                return "(= %s %s)" % (t(s2), t(s2))
+            if j == 5:
+                s2 = r.choice([s for s in avail if s != "(Array Int Int)"])
+                n = r.randint(2, 3)
+                self.features.add("distinct/%d" % n)
+                return "(distinct %s)" % " ".join(t(s2) for _ in range(n))
+            if j == 6 and ("Int" in avail or "Real" in avail):
+                s2 = r.choice([s for s in avail if s in ("Int", "Real")])
+                return "(%s %s %s)" % (r.choice(["<", "<=", ">", ">="]), t(s2), t(s2))
+            if j == 7 and "(_ BitVec 3)" in avail:
+                s2 = r.choice(["(_ BitVec 3)", "(_ BitVec 8)"])
+                return "(%s %s %s)" % (r.choice(["bvult", "bvule", "bvugt", "bvuge", "bvslt", "bvsle", "bvsgt", "bvsge"]), t(s2), t(s2))
+            if j in (8, 9):
+                # quantifier: bound names may shadow constants of another sort
+                n = r.randint(1, 2)
+                vs = []
+                for _ in range(n):
+                    nm = r.choice(self.shadowable(scope)) if r.random() < 0.5 else self.fresh("b")
+                    if nm in [a for a, _ in vs]:
+                        continue
+                    vs.append((nm, r.choice([s for s in avail if s in ("Bool", "(_ BitVec 3)", "Int", "S")] or ["Bool"])))
+                inner = dict(scope)
+                for nm, s2 in vs:
+                    inner[nm] = s2
+                self.features.add("quantifier/%d%s" % (len(vs), "/shadowing" if any(nm in scope for nm, _ in vs) else ""))
+                return "(%s (%s) %s)" % (r.choice(["forall", "exists"]), " ".join("(%s %s)" % (self.spell(nm), s2) for nm, s2 in vs),
+                                         self.term("Bool", depth - 1, inner))
+            if j == 10 and "String" in avail:
+                return "(%s %s %s)" % (r.choice(["str.prefixof", "str.suffixof", "str.contains"]), t("String"), t("String"))
+            if j == 11 and "(Array Int Int)" in avail:
+                return "(= (select %s %s) %s)" % (t("(Array Int Int)"), t("Int"), t("Int"))
+            return self.leaf(so, scope)
+        if so == "Int":
+            j = r.randrange(9)
+            if j == 0:
+                return "(+ %s)" % " ".join(t("Int") for _ in range(r.randint(2, 3)))
+            if j == 1:
+                return "(- %s %s)" % (t("Int"), t("Int"))
+            if j == 2:
+                self.features.add("unary-minus")
+                return "(- %s)" % t("Int")
+            if j == 3:
+                return "(* %s %s)" % (self.literal("Int", scope), t("Int"))
+            if j == 4:
+                self.features.add("div")
+                return "(div %s %s)" % (t("Int"), r.choice(["2", "3", "(- 2)"]))
+            if j == 5 and "(_ BitVec 3)" in avail:
+                return "(bv2nat %s)" % t(r.choice(["(_ BitVec 3)", "(_ BitVec 8)"]))
+            if j == 6 and "String" in avail:
+                return r.choice(["(str.len %s)" % t("String"), "(str.indexof %s %s %s)" % (t("String"), t("String"), t("Int")),
+                                 "(str.to.int %s)" % t("String")])
+            if j == 7 and "(Array Int Int)" in avail:
+                return "(select %s %s)" % (t("(Array Int Int)"), t("Int"))
+            return self.leaf(so, scope)
+        if so == "Real":
+            j = r.randrange(7)
+            if j == 0:
+                return "(+ %s)" % " ".join(t("Real") for _ in range(r.randint(2, 3)))
+            if j == 1:
+                return "(- %s %s)" % (t("Real"), t("Real"))
+            if j == 2:
+                return "(- %s)" % t("Real")
+            if j == 3:
+                return "(* %s %s)" % (self.literal("Real", scope), t("Real"))
+            if j == 4:
+                self.features.add("real-division")
+                return "(/ %s %s)" % (t("Real"), r.choice(["2.0", "4.0", "(- 3.0)"]))
+            if j == 5 and "Int" in avail:
+                return "(to_real %s)" % t("Int")
+            return self.leaf(so, scope)
+        if so.startswith("(_ BitVec"):
+            w = int(so.split()[2].rstrip(")"))
+            j = r.randrange(16)
+            bin_ = ["bvand", "bvor", "bvxor", "bvadd", "bvsub", "bvmul", "bvudiv", "bvurem", "bvshl", "bvlshr", "bvashr",
+                    "bvsdiv", "bvsrem", "bvnand", "bvnor", "bvxnor", "bvsmod"]
+            if j < 6:
+                o = r.choice(bin_)
+                self.features.add(o)
+                return "(%s %s %s)" % (o, t(so), t(so))
+            if j == 6:
+                return "(%s %s)" % (r.choice(["bvnot", "bvneg"]), t(so))
+            if j == 7 and w == 8:
+                self.features.add("concat")
+                return "(concat %s %s)" % (t("(_ BitVec 3)"), "((_ extract 4 0) %s)" % t("(_ BitVec 8)"))
+            if j == 8 and w == 3:
+                lo = r.randint(0, 5)
+                self.features.add("extract")
+                return "((_ extract %d %d) %s)" % (lo + 2, lo, t("(_ BitVec 8)"))
+            if j == 9 and w == 8:
+                self.features.add("extend")
+                return "((_ %s 5) %s)" % (r.choice(["zero_extend", "sign_extend"]), t("(_ BitVec 3)"))
+            if j == 10:
+                self.features.add("rotate")
+                k = r.randint(0, w + 1)
+                if k > w:
+                    self.features.add("rotate-beyond-width")
+                return "((_ %s %d) %s)" % (r.choice(["rotate_left", "rotate_right"]), k, t(so))
+            return self.leaf(so, scope)
+        if so == "String":
+            j = r.randrange(6)
+            if j == 0:
+                return "(str.++ %s %s)" % (t("String"), t("String"))
+            if j == 1:
+                return "(str.at %s %s)" % (t("String"), t("Int"))
+            if j == 2:
+                return "(str.substr %s %s %s)" % (t("String"), t("Int"), t("Int"))
+            if j == 3:
+                return "(str.replace %s %s %s)" % (t("String"), t("String"), t("String"))
+            if j == 4:
+                return "(int.to.str %s)" % t("Int")
+            return self.leaf(so, scope)
+        if so == "(Array Int Int)":
+            if r.random() < 0.6:
+                return "(store %s %s %s)" % (t(so), t("Int"), t("Int"))
+            return self.leaf(so, scope)
+        return self.leaf(so, scope)
+
+    def script(self):
+        r = self.r
+        self.header()
+        depth = 0
+        for _ in range(r.randint(1, 4)):
+            k = r.random()
+            if k < 0.15:
+                n = r.choice([1, 1, 2])
+                self.lines.append("(push %d)" % n)
+                depth += n
+            elif k < 0.25 and depth > 0:
+                n = r.randint(1, depth)
+                self.lines.append("(pop %d)" % n)
+                depth -= n
+            else:
+                self.lines.append("(assert %s)" % self.term("Bool", r.randint(1, 4), dict(self.consts)))
+        if r.random() < 0.3:
+            self.lines.append("(check-sat)")
+            so = r.choice(self.sorts_for())
+            self.lines.append("(get-value (%s))" % self.term(so, 1, dict(self.consts)))
+        else:
+            self.lines.append("(check-sat)")
+        return "\n".join(self.lines) + "\n"
+
+
+def type_sort_eq(t, s):
+    return sort_of_type(t) == s
+
+
+def check_script(text, features, rng, parser=None):
+    """-> (violation dict | None, accepted?)"""
+    from native.bounded import fresh_env
+    from pysmt.smtlib.parser import SmtLibParser
+    if parser is None:
+        parser = SmtLibParser(fresh_env())
+    try:
+        sc = R.Script()
+        cmds = R.parse_all(text)
+        for c in cmds:
+            sc.run(c)
+    except refeval.DivByZero:
+        return None, False
+    except R.SmtError as e:
+        return {"key": "generator-produced-illegal-script", "error": str(e), "text": text}, False
+    ref = R.Script()
+    try:
+        with warnings.catch_warnings():
+            warnings.simplefilter("ignore")
+            script = parser.get_script(io.StringIO(text))
+    except Exception as e:
+        # rejection is allowed only for constructs pySMT does not handle today
+        if {f for f in features if f.split("/")[0] in MAY_REJECT}:
+            return None, False
+        return {"key": "no-longer-accepted", "error": repr(e)[:300], "features": sorted(features), "text": text}, False
+    pc = list(script.commands)
+    if len(pc) != len(cmds):
+        return {"key": "command-count", "got": len(pc), "want": len(cmds), "text": text}, True
+    bad = None
+    for sx, c in zip(cmds, pc):
+        name = str(sx[0])
+        ref.run(sx)
+        if c.name != name:
+            bad = {"key": "command-name", "got": c.name, "want": name}
+            break
+        if name in ("push", "pop"):
+            want = int(sx[1]) if len(sx) > 1 else 1
+            if c.args[0] != want:
+                bad = {"key": "levels", "got": c.args[0], "want": want}
+                break
+        elif name in ("declare-fun", "declare-const"):
+            s = c.args[0]
+            f = ref.sig.find("funs", sx[1])
+            st = s.symbol_type()
+            ok = s.symbol_name() == str(sx[1])
+            if st.is_function_type():
+                ok = ok and [sort_of_type(p) for p in st.param_types] == list(f[0]) and sort_of_type(st.return_type) == f[1]
+            else:
+                ok = ok and not f[0] and sort_of_type(st) == f[1]
+            if not ok:
+                bad = {"key": "declaration", "got": "%s : %s" % (s, st), "want": str(sx)}
+                break
+        elif name in ("assert", "get-value"):
+            terms = [sx[1]] if name == "assert" else list(sx[1])
+            got_terms = [c.args[0]] if name == "assert" else list(c.args)
+            if len(terms) != len(got_terms):
+                bad = {"key": "term-count", "command": name}
+                break
+            for tx, f in zip(terms, got_terms):
+                d = compare_term(tx, f, ref, rng, 5)
+                if d:
+                    bad = d
+                    break
+            if bad:
+                break
+        elif name == "define-fun":
+            fname, params, rtype, body = c.args[0], c.args[1], c.args[2], c.args[3]
+            d = ref.sig.find("defs", sx[1])
+            if [sort_of_type(p.symbol_type()) for p in params] != [s for _, s in d[0]] or sort_of_type(rtype) != d[1]:
+                bad = {"key": "definition-signature", "got": str(c.args), "want": str(sx)}
+                break
+            d2 = compare_term(sx[4], body, ref, rng, 5, params=list(zip([p for p, _ in d[0]], [s for _, s in d[0]], params)))
+            if d2:
+                bad = d2
+                break
+    if bad:
+        bad["text"] = text
+        bad["features"] = sorted(features)
+    return bad, True
+
+
+def import_check(tier, seed):
+    rng = random.Random(seed)
+    trials = 300 if tier == "quick" else 4000
+    n = nontriv = accepted = 0
+    viol, samples = [], []
+    feats = set()
+    known = {}
+    logics = ["ALL", "QF_LIA", "QF_LRA", "QF_BV", "QF_UFLIA", "QF_AUFLIA", "QF_LIRA", None]
+    # the recorded finding's own witness is always exercised (so that the KNOWN-FINDING line does not depend on the seed)
+    wit = ("(declare-fun t () Bool)\n(define-fun d ((s Bool)) Bool (not t))\n(assert (forall ((t Bool)) (d t)))\n(check-sat)\n")
+    bad, _ = check_script(wit, {"defined-application", "quantifier/1/shadowing"}, rng)
+    if bad and bad["key"] == "different-value":
+        bad2, _ = check_script(alpha_rename_script(R.parse_all(wit)), set(), rng)
+        if bad2 is None:
+            known["definition-capture"] = {"key": "definition-capture", "term": bad.get("term"), "parsed_as": bad.get("parsed_as"),
+                                           "text": wit, "note": "agrees with the reader once the quantified variables are renamed"}
+        else:
+            viol.append(bad)
+    elif bad:
+        viol.append(bad)
+    parser = None
+    for t in range(trials if not viol else 0):
+        # one parser object (and environment) serves several scripts in a row, as in a long-lived application
+        if t % 4 == 0:
+            from native.bounded import fresh_env
+            from pysmt.smtlib.parser import SmtLibParser
+            parser = SmtLibParser(fresh_env())
+        g = ScriptGen(random.Random(rng.random()), rng.choice(logics), suffix="_%d" % (t % 4))
+        text = g.script()
+        n += 1
+        bad, acc = check_script(text, g.features, rng, parser)
+        accepted += 1 if acc else 0
+        if acc:
+            feats |= g.features
+        if bad and bad["key"] == "different-value":
+            # is the only cause the capture of a definition's global symbol by a quantifier of the same name?
+            # (alpha-renaming the quantified variables does not change the meaning of the text)
+            renamed = alpha_rename_script(R.parse_all(text))
+            bad2, _ = check_script(renamed, g.features, rng)
+            if bad2 is None:
+                if "definition-capture" not in known:
+                    known["definition-capture"] = {"key": "definition-capture", "term": bad.get("term"), "parsed_as": bad.get("parsed_as"),
+                                                   "text": text, "note": "agrees with the reader once the quantified variables are renamed"}
+                continue
+        if bad:
+            viol.append(bad)
+            break
+        if len(g.features) > 3:
+            nontriv += 1
+        if len(samples) < 3 and len(text) > 300:
+            samples.append(text[:300])
+    return {"name": "smtlib_import", "bounded": True, "evaluations": n, "distinct_nontrivial": nontriv,
+            "rule": "%d scripts written from a typed grammar of SMT-LIB 2.6 (not by pySMT's printer) over 8 logics: simultaneous and "
+                    "shadowing lets, quantifiers shadowing constants, define-fun with parameters shadowing constants, declare-const, "
+                    "quoted symbols, annotations, n-ary / chained operators, indexed operators, literals in every notation, numerals "
+                    "typed by logic, push / pop n, get-value; %d accepted by pySMT; every asserted term, definition body and "
+                    "get-value term compared by value with the independent reader under 5 random interpretations; features "
+                    "reached: %d" % (trials, accepted, len(feats)),
+            "samples": samples, "violations": list(known.values()) + viol, "features": sorted(feats)}
+
+
+# constructs pySMT's parser does not handle today (rejection with an error is the expected answer)
+MAY_REJECT = {"=>-chain", "rotate-beyond-width"}
+
+
+def compare_term(sx, f, ref, rng, trials, params=()):
+    """text term sx (under the reference signature) vs parsed FNode f"""
+    for k in range(trials):
+        I, M = random_interp(f, rng)
+        env_ = {}
+        for pname, psort, psym in params:
+            v = refeval.random_value(psym.symbol_type(), rng)
+            I.values[psym] = v
+            env_[R.Sym(pname)] = (psort, v)
+        # symbols of the text that the parsed formula no longer mentions still need a value
+        M2 = LazyModel(M, rng)
+        try:
+            want_s, want = R.evaluate(sx, ref.sig, M2, env_)
+        except refeval.DivByZero:
+            continue
+        psyms = {p[2] for p in params}
+        for s in refeval.free_symbols(f):
+            if s in psyms:
+                continue
+            if not s.symbol_type().is_function_type() and s.symbol_name() in M2.values:
+                I.values[s] = M2.values[s.symbol_name()]
+        try:
+            got = refeval.evaluate(f, I)
+        except refeval.DivByZero:
+            continue
+        except refeval.Unsupported:
+            return None
+        if not same_value(got, want) or sort_of_type(refeval.type_of(f)) != want_s:
+            return {"key": "different-value", "term": sexpr_text(sx), "parsed_as": f.serialize(), "text_value": repr(want),
+                    "parsed_value": repr(got), "text_sort": str(want_s), "parsed_type": str(refeval.type_of(f)),
+                    "interpretation": {k.symbol_name(): repr(v) for k, v in I.values.items()}}
+    return None
+
+
+class LazyModel(R.Model):
+    def __init__(self, base, rng):
+        R.Model.__init__(self, base.values, base.funcs)
+        self.rng = rng
+        self.memo = {}
+
+    def value(self, name, sort):
+        if name not in self.values:
+            self.values[name] = random_value_of_sort(sort, self.rng)
+        return self.values[name]
+
+    def apply(self, name, args, ret):
+        if name in self.funcs:
+            return self.funcs[name](*args)
+        k = (name, tuple(refeval.key(a) for a in args))
+        if k not in self.memo:
+            self.memo[k] = random_value_of_sort(ret, self.rng)
+        return self.memo[k]
+
+
+def random_value_of_sort(s, rng):
+    if s == R.BOOL:
+        return rng.random() < 0.5
+    if s == R.INT:
+        return rng.choice([-3, -2, -1, 0, 1, 2, 3, 5, 7, 10])
+    if s == R.REAL:
+        return Fraction(rng.randint(-20, 20), rng.randint(1, 6))
+    if s[0] == "BV":
+        return rng.randrange(1 << s[1])
+    if s == R.STRING:
+        return rng.choice(["", "a", "b", "ab", "ba", "abc", "0", "12"])
+    if s[0] == "Array":
+        a = refeval.ArrVal(random_value_of_sort(s[2], rng))
+        for _ in range(rng.randint(0, 2)):
+            a = a.store(random_value_of_sort(s[1], rng), random_value_of_sort(s[2], rng))
+        return a
+    return ("U", R.sort_name(s), rng.randint(0, 2))
+
+
+def sexpr_text(sx):
+    if isinstance(sx, list):
+        return "(" + " ".join(sexpr_text(x) for x in sx) + ")"
+    if isinstance(sx, R.StrLit):
+        return '"' + str(sx).replace('"', '""') + '"'
+    if isinstance(sx, R.BvLit):
+        return "#b" + format(sx[0], "0%db" % sx[1])
+    if isinstance(sx, R.Dec):
+        fr = Fraction(sx)
+        k = 0
+        while (fr * 10 ** k).denominator != 1:
+            k += 1
+        k = max(k, 1)
+        digits = str(int(fr * 10 ** k)).rjust(k + 1, "0")
+        return digits[:-k] + "." + digits[-k:]
+    if isinstance(sx, R.Sym):
+        nm = str(sx)
+        if nm and all(c in R.SIMPLE_CHARS for c in nm) and not nm[0].isdigit():
+            return nm
+        return "|%s|" % nm
+    return str(sx)
+
+
+_ALPHA = [0]
+
+
+def alpha_rename(sx, env=None):
+    """rename every quantifier-bound variable to a fresh name (meaning preserved by the standard)"""
+    env = env or {}
+    if isinstance(sx, R.Sym):
+        return env.get(sx, sx)
+    if not isinstance(sx, list) or not sx:
+        return sx
+    h = sx[0]
+    if isinstance(h, R.Sym) and h not in env:
+        if h in ("forall", "exists") and len(sx) == 3:
+            new = dict(env)
+            bs = []
+            for b in sx[1]:
+                _ALPHA[0] += 1
+                nn = R.Sym("qv!%d" % _ALPHA[0])
+                new[b[0]] = nn
+                bs.append([nn, b[1]])
+            return [h, bs, alpha_rename(sx[2], new)]
+        if h == "let" and len(sx) == 3:
+            bs = [[b[0], alpha_rename(b[1], env)] for b in sx[1]]
+            inner = {k: v for k, v in env.items() if k not in [b[0] for b in sx[1]]}
+            return [h, bs, alpha_rename(sx[2], inner)]
+        if h == "!":
+            return [h, alpha_rename(sx[1], env)] + list(sx[2:])
+        if h == "_" or h == "as":
+            return sx
+    return [alpha_rename(x, env) if i or not isinstance(x, R.Sym) or x in env else x for i, x in enumerate(sx)]
+
+
+def alpha_rename_script(cmds):
+    out = []
+    for c in cmds:
+        if c and c[0] == "assert":
+            out.append([c[0], alpha_rename(c[1])])
+        elif c and c[0] == "get-value":
+            out.append([c[0], [alpha_rename(t) for t in c[1]]])
+        elif c and c[0] == "define-fun":
+            out.append([c[0], c[1], c[2], c[3], alpha_rename(c[4])])
+        else:
+            out.append(c)
+    return "\n".join(sexpr_text(c) for c in out) + "\n"
+
+
+CHECKS["smtlib_import"] = import_check
+
+
+# ---------------------------------------------------------------------------
+# C08: malformed variants must be rejected (never read as something else)
+# ---------------------------------------------------------------------------
+MALFORMED_HEADER = ("(declare-fun x () Int)(declare-fun r () Real)(declare-fun b () Bool)(declare-fun s () String)"
+                    "(declare-fun v () (_ BitVec 3))")
+MALFORMED = [
+    "(assert (= x undeclared))", "(assert (> x -5))", "(assert (> x +3))", "(assert (> x 1e1))", "(assert (> x 1_0))",
+    "(assert (> x 007))", "(assert (> r 1/2))", "(assert (> r .5))", "(assert (> r 5.))", "(assert (> x 0x10))",
+    "(assert (not b b))", "(assert (ite b x))", "(assert (= x))", "(assert (= v #b012))", "(assert (= v #xZ))",
+    "(assert (= v (_ bv8 3)))", "(assert (= ((_ extract 0 2) v) v))", "(assert (= x true))", "(assert (b))", "(assert ())",
+    "(assert b b)", "(assert (forall () b))", "(assert (= x (-)))", "(assert (> (str.len x) 0))", "(assert (= x 1)",
+    "(assert (= x 1)))", "(assert (= x 1))(", "(assert (let ((y 1)) ))", "(assert (let (y 1) b))", "(assert (= s \"abc))",
+    "(assert (= |x x))", "(assert (=> b))", "(assert (= v #b))", "(declare-fun y () Foo)", "(declare-fun y (Int) )",
+    "(assert (select x 1))", "(assert true false)", "(assert (exists ((y Int)) y))", "(assert ((_ extract 1 0) x))",
+    "(assert (bvadd v #b01))", "(assert (= (concat v v) v))", "(assert (str.++ s x))", "(assert (< s s))",
+    "(frobnicate x)", "(assert (= x (let ((y 1)) z)))", "(assert (and b (or b undeclared2)))",
+]
+# an undeclared symbol where a String fits is read as a string constant (known finding; the repository's own tests rely on it)
+UNBOUND_AS_STRING = ["(assert (= s undeclared))", "(assert (= undeclared undeclared))", "(assert (str.prefixof foo s))"]
+
+
+def malformed_check(tier, seed):
+    from native.bounded import fresh_env
+    from pysmt.smtlib.parser import SmtLibParser
+    n = 0
+    viol = []
+    for t in MALFORMED + UNBOUND_AS_STRING:
+        text = MALFORMED_HEADER + t
+        n += 1
+        try:
+            sc = R.Script()
+            for c in R.parse_all(text):
+                sc.run(c)
+            viol.append({"key": "harness-considers-legal", "text": t})
+            break
+        except (R.SmtError, refeval.DivByZero):
+            pass
+        try:
+            with warnings.catch_warnings():
+                warnings.simplefilter("ignore")
+                script = SmtLibParser(fresh_env()).get_script(io.StringIO(text))
+        except Exception:
+            continue
+        last = script.commands[-1]
+        if t in UNBOUND_AS_STRING:
+            viol.append({"key": "unbound-token-as-string", "text": t, "read_as": [str(a) for a in last.args]})
+        else:
+            viol.append({"key": "illegal-text-accepted", "text": t, "read_as": [str(a) for a in last.args]})
+    # keep one entry per known class
+    seen, out = set(), []
+    for v in viol:
+        if v["key"] == "unbound-token-as-string":
+            if v["key"] in seen:
+                continue
+            seen.add(v["key"])
+        out.append(v)
+    return {"name": "smtlib_malformed", "bounded": True, "evaluations": n, "distinct_nontrivial": n, "exhaustive": True,
+            "rule": "%d malformed variants (undeclared symbols, number-like tokens that are not SMT-LIB numerals, wrong arities, "
+                    "ill-sorted applications, bad literals and indices, unbalanced parentheses, malformed binders, unknown sorts "
+                    "and commands): each must be rejected with an error" % n,
+            "samples": MALFORMED[:3], "violations": out}
+
+
+CHECKS["smtlib_malformed"] = malformed_check
